@@ -645,7 +645,8 @@ async fn scenario(p: Plan) {
                     return;
                 }
             }
-            if secure && involves_denial && over_soft {
+            // (a positive, non-expanded answer rests on its RRSIGs, not on NSEC3 records)
+            if secure && involves_denial && over_soft && claim != Claim::Positive {
                 if exec::violate(&format!("{id}.iterations"), "secure-over-soft-limit", format!("{} {}: Secure although the NSEC3 iteration count {} exceeds the soft limit {}", victim.name, qt, p.iterations, p.soft_limit)) {
                     return;
                 }
